@@ -47,3 +47,6 @@ func verifC11AfterDequeue(c *connection, conn net.Conn, req []byte) {
 		f(c.client, conn, req)
 	}
 }
+
+// VerifC11Conf returns a copy of the configuration a client was built with.
+func VerifC11Conf(tc *TarsClient) TarsClientConf { return *tc.config }
